@@ -439,6 +439,32 @@ func (s *pureScan) call(t *ast.CallExpr) (handledChildren bool) {
 					}
 				}
 				sub.scanFunc(fd.Type.Params, nil, fd.Body)
+				if len(sub.probs) > 0 && len(fd.Type.Params.List) > 0 && len(fd.Type.Params.List[0].Names) > 0 && len(t.Args) > 0 {
+					// a helper like EncodeVarint: its only effect may be a write into the buffer it is handed as first
+					// argument. Scanned again with that parameter taken as a fresh buffer; if nothing else is written, the call
+					// is a write into the caller's first argument, which must then be a buffer allocated in this call
+					p0 := rp.TypesInfo.ObjectOf(fd.Type.Params.List[0].Names[0])
+					if _, isSlice := p0.Type().Underlying().(*types.Slice); isSlice {
+						sub2 := &pureScan{info: rp.TypesInfo, pkg: rp.Types, fresh: map[types.Object]bool{p0: true}, locals: map[types.Object]bool{}, byValue: map[types.Object]bool{}, fparams: map[types.Object]bool{}, depth: s.depth + 1, localFn: sub.localFn}
+						if fd.Type.Results != nil {
+							for _, fl := range fd.Type.Results.List {
+								for _, nm := range fl.Names {
+									if o := rp.TypesInfo.ObjectOf(nm); o != nil {
+										sub2.locals[o] = true
+									}
+								}
+							}
+						}
+						sub2.scanFunc(fd.Type.Params, nil, fd.Body)
+						if len(sub2.probs) == 0 && len(sub2.undec) == 0 {
+							id, _ := rootIdent(t.Args[0])
+							if id == nil || !(s.fresh[info.ObjectOf(id)] && s.locals[info.ObjectOf(id)]) {
+								s.probs = append(s.probs, q+" writes into "+types.ExprString(t.Args[0])+", which is not a buffer allocated in this call")
+							}
+							return
+						}
+					}
+				}
 				for _, p := range sub.probs {
 					s.probs = append(s.probs, q+": "+p)
 				}
